@@ -2140,9 +2140,9 @@ class MultiUserChannelMatrixExtInt(  # pylint: disable=R0904
     @property
     def H_no_ext_int(self) -> np.ndarray:
         """Get method for the H_no_ext_int property."""
-        # Call H property get method of the base class
-        H = MultiUserChannelMatrix.H.fget(self)  # type: ignore
-        return H[:self.K, :self.K]
+        # The H property already applies the path loss (if any). We only
+        # need to remove the external interference sources.
+        return self.H[:, :self.K]
 
     def corrupt_data(  # type: ignore
             self, data: np.ndarray, ext_int_data: np.ndarray) -> np.ndarray:
